@@ -487,6 +487,9 @@ func (c *Cache) copyFile(file io.ReadSeeker, out OutputID, size int64) error {
 			var out2 OutputID
 			h.Sum(out2[:0])
 			if out == out2 {
+				// The output is stored anew: refresh its mtime so that
+				// Trim does not treat it as unused since its first Put.
+				c.used(name)
 				return nil
 			}
 		}
